@@ -304,8 +304,11 @@ def run_c24(ctx, replay_path=None):
 
 PROPS = {
     "C24": dict(
-        theorems=[],
-        witnesses=[],
+        theorems=["BluetoeModel.Adv.inv_reachable", "BluetoeModel.Adv.timeout_channel_successor",
+                  "BluetoeModel.Adv.cycle_visits_enabled_ascending_once", "BluetoeModel.Adv.enabledIdxs_spec",
+                  "BluetoeModel.Adv.map_change_selects_lowest", "BluetoeModel.Adv.start_on_current_partial",
+                  "BluetoeModel.Adv.count_bounds_pdus", "BluetoeModel.Adv.startn_budget", "BluetoeModel.Adv.stop_silences"],
+        witnesses=["BluetoeModel.Adv.start_on_lowest_witness"],
         run=run_c24,
         harness_keys=["default"],
         level="proof",
